@@ -128,8 +128,8 @@ class ArcKernel(Kernel):
             self.register_prior(
                 "angle_prior",
                 angle_prior,
-                lambda m: m.angle,
-                lambda m, v: m._set_angle(v),
+                self._angle_param,
+                self._angle_closure,
             )
 
         self.register_constraint("raw_angle", angle_constraint)
@@ -145,8 +145,8 @@ class ArcKernel(Kernel):
             self.register_prior(
                 "radius_prior",
                 radius_prior,
-                lambda m: m.radius,
-                lambda m, v: m._set_radius(v),
+                self._radius_param,
+                self._radius_closure,
             )
 
         radius_constraint = Positive()
@@ -156,6 +156,22 @@ class ArcKernel(Kernel):
         if self.base_kernel.has_lengthscale:
             self.base_kernel.lengthscale = 1
             self.base_kernel.raw_lengthscale.requires_grad_(False)
+
+    def _angle_param(self, m):
+        # Used by the angle_prior (a method rather than a lambda: the module stays picklable)
+        return m.angle
+
+    def _angle_closure(self, m, v):
+        # Used by the angle_prior
+        return m._set_angle(v)
+
+    def _radius_param(self, m):
+        # Used by the radius_prior (a method rather than a lambda: the module stays picklable)
+        return m.radius
+
+    def _radius_closure(self, m, v):
+        # Used by the radius_prior
+        return m._set_radius(v)
 
     @property
     def angle(self):
